@@ -1,6 +1,7 @@
 use crate::ctx::Shard;
 
 pub mod c01;
+pub mod c02cells;
 pub mod c04;
 pub mod c05;
 pub mod c06;
